@@ -99,7 +99,6 @@ type Interp struct {
 	DiskSize    uint64
 	Nondet      bool // a nondeterministic primitive (random, time) was used
 	sched       *sched
-	thread      *thread
 	valCache    map[*Def]Val
 }
 
